@@ -96,6 +96,7 @@ structure Schema (V : Type) where
   blank : V                  -- `.value` of a member just created by `_reset()`
   setF : Str → V → V         -- `.value` of member `n` after `member.set(x)`
   policy : Policy := .subset
+  sparse : Bool := false     -- SparseDict (minimum_fields = None): only members that were set exist
 
 /-- a Dict element: `(name, member.value)` in `dict` order (= declaration order) -/
 abbrev Elem (V : Type) := List (Str × V)
@@ -142,6 +143,11 @@ structure SetByResult (V : Type) where
 
 /-- `Dict.set(final)` for a dict `final` whose keys are all declared fields -/
 def dictSetValue {V} (S : Schema V) (final : List (Str × V)) : Option Err × Elem V :=
+  if S.sparse then
+    -- SparseDict: `_reset()` empties the mapping; members are created as the pairs arrive
+    if S.policy == .strict && !(S.fields.all fun f => (keys final).contains f) then (some .typeError, [])
+    else (none, final.map fun p => (p.1, S.setF p.1 p.2))
+  else
   let blank : Elem V := S.fields.map (·, S.blank)                    -- `self._reset()`
   -- strict: `required - given` non-empty raises TypeError after the reset
   if S.policy == .strict && !(S.fields.all fun f => (keys final).contains f) then
@@ -160,9 +166,12 @@ def candidates (fields : List Str) (a : Args) : List Str :=
 def readable {V} (o : Obj V) (cand : List Str) : List (Str × V) :=
   cand.filterMap fun x => (o.get x).map (x, ·)
 
+/-- `set(self.keys())`: the declared fields for a Dict; only the members that exist for a SparseDict -/
+def effFields {V} (S : Schema V) (e : Elem V) : List Str := if S.sparse then keys e else S.fields
+
 /-- `Dict.set_by_object` on an element in state `e` -/
 def setByObject {V} (S : Schema V) (e : Elem V) (o : Obj V) (a : Args) : SetByResult V :=
-  let fields := S.fields                                   -- `set(self.keys())`
+  let fields := effFields S e                              -- `set(self.keys())`
   let cand := candidates fields a
   -- keyslice_pairs is a generator: its `include and omit` test runs at the first `next()`,
   -- before `possible` is advanced, so nothing has been read from the object yet
